@@ -149,6 +149,20 @@ func (rn *runner) judge(progs []*Prog, br *BatchResult, shrinkPass bool) {
 		default:
 			c.Hit("outcome:ok")
 		}
+		if len(p.Tags) == 1 && strings.HasPrefix(p.Tags[0], "ord-") && io.Exit != -1 {
+			// the observer must show the declared order in the interpreted run (non-vacuity of the order stream)
+			for _, e := range expectOf(p.Src) {
+				if showsOrder(io.Out, e) {
+					c.Hit("ord:effective")
+				} else {
+					c.Hit("ord:ineffective:" + p.Tags[0])
+					c.Note("order observer of %s does not show the declared order %q in the interpreted run: %s", p.Tags[0], e, io)
+				}
+			}
+		}
+		if rn.explore != nil && os.Getenv("C16_ONLY") != "" {
+			fmt.Fprintf(rn.explore, "OBS %s %v same=%v\n  compiled: %s\n  interp:   %s\n", p.Name, p.Tags, co.Same(io), co, io)
+		}
 		c.SampleSome(map[string]any{"program": p.Name, "tags": p.Tags, "interpreted": io.String(), "compiled": co.String()}, 97)
 		if io.Exit == -1 || co.Exit == -1 {
 			// a timeout on either side is not comparable (load); note it
@@ -418,6 +432,21 @@ func Run(c *vh.Ctx) {
 		default:
 			entryPool = append(entryPool, f)
 		}
+	}
+	if only := os.Getenv("C16_ONLY"); only != "" {
+		// development aid: only the features whose tag starts with $C16_ONLY, $C16_REPS times each, one batch
+		reps := 1
+		fmt.Sscanf(os.Getenv("C16_REPS"), "%d", &reps)
+		var progs []*Prog
+		for i := range features {
+			if strings.HasPrefix(features[i].Tag, only) {
+				for k := 0; k < reps; k++ {
+					progs = append(progs, FeatProg(c.Rand, &features[i], fmt.Sprintf("o%dr%d", i, k), "feat"))
+				}
+			}
+		}
+		rn.batch(progs, false)
+		return
 	}
 	nRounds := c.N(1, 5)
 	for b := 0; b < nRounds; b++ {
